@@ -20,12 +20,12 @@ AccCases(u) == {[kind |-> "acc", mo |-> mo, mf |-> mf, w |-> w, axis |-> ax, ign
 AccErr(x) == x.w > (IF x.axis = "leadtime" THEN ANL ELSE ANT)
 
 \* ---- ens2prob ----
-EnsV == {R(0), R(1), R(2), NaN}
+EnsV == {R(0), Frac(7, 10), R(1), R(2), NaN}          \* 0.7 has no exact binary representation: ties must stay ties in any precision
 EnsOf(m) == IF m = 1 THEN {<<a>> : a \in EnsV} ELSE IF m = 2 THEN {<<a, b>> : a \in EnsV, b \in EnsV} ELSE {<<a, b, d>> : a \in EnsV, b \in EnsV, d \in EnsV}
 ThsInc == <<R(0), R(1), Frac(3, 2), R(2)>>
 ThsMixed == <<Frac(3, 2), R(0), R(2), R(1)>>                 \* thresholds need not be given in increasing order
 EnsCases(u) == {[kind |-> "ens", ens |-> e, obs |-> o, m |-> Len(e), ths |-> t] : e \in EnsOf(1) \cup EnsOf(2) \cup EnsOf(3),
-                  o \in {R(0), R(1), Frac(3, 2), R(3), NaN}, t \in {ThsInc, ThsMixed}}
+                  o \in {R(0), Frac(7, 10), R(1), Frac(3, 2), R(3), NaN}, t \in {ThsInc, ThsMixed}}
 Ths == c.ths
 Lvs == <<Zero, Frac(1, 4), Frac(1, 2), One>>
 Other(m) == IF m = 1 THEN <<R(1)>> ELSE IF m = 2 THEN <<R(2), R(0)>> ELSE <<R(1), R(2), R(0)>>      \* second cell: a complete ensemble
